@@ -566,6 +566,12 @@ func (g *gen) strExpr(d int) ex {
 		// literal concatenation chains that the minifier merges
 		n := 2 + r.Intn(3)
 		e := atom(g.strLit())
+		if r.Chance(1, 3) {
+			// (K136 repaired) the chain starts below another operator: x - "1" + "2" must keep the subtraction
+			op := r.Pick("-", "*", "/", "%")
+			pp := map[string]int{"-": pAdd, "*": pMul, "/": pMul, "%": pMul}[op]
+			e = g.bin(g.leaf(kNum), op, atom("\""+r.Pick("1", "2", "10", "0.5")+"\""), pp, false)
+		}
 		for i := 1; i < n; i++ {
 			var rr ex
 			if r.Chance(1, 4) {
